@@ -127,10 +127,15 @@ func (i Info) AppendHash(dst []byte, h hash.Hash) []byte {
 	forms := make([]hashChunk, 0, len(i.Form))
 	for _, infoForm := range i.Form {
 		var formType string
+		var hasType bool
 		fields := make([]string, 0, infoForm.Len())
 		infoForm.ForFields(func(f form.FieldData) {
 			if f.Var == "FORM_TYPE" {
-				formType, _ = infoForm.GetString("FORM_TYPE")
+				// Use the value as it appears on the wire, whatever the type of the
+				// field.
+				if !hasType && len(f.Raw) > 0 {
+					formType, hasType = f.Raw[0], true
+				}
 				return
 			}
 			fields = append(fields, f.Var)
